@@ -71,6 +71,19 @@ def choose_chars(tdef, meta, k, rng):
     cold = [it for it in items if sum(interest[x] for x in it[0]) == 0]
     rng.shuffle(hot)
     hot.sort(key=lambda kv: -sum(interest[x] for x in kv[0]))
+    # blocks on which the graph acts alike (same column of edge targets) are represented once before any of
+    # them is represented twice: otherwise the many blocks of one wide class crowd out the one block of another
+    def column(it):
+        return tuple(tuple(row[x - 1] for row in edge) for x in it[0])
+    first, later, cols = [], [], set()
+    for it in hot:
+        c = column(it)
+        if c in cols:
+            later.append(it)
+        else:
+            cols.add(c)
+            first.append(it)
+    hot = first + later
     pick = []
     multi = [it for it in hot + cold if len(it[0]) > 1]
     if is_str and multi:
